@@ -1020,7 +1020,14 @@ public:
 class mt19937
 {
 public:
+    using result_type = unsigned long;
     explicit mt19937(unsigned) {}
+    mt19937() {}
+    void seed(unsigned) {}
+    // a direct draw: every 32-bit outcome (symbolic)
+    result_type operator()() { return static_cast<result_type>(__vf_random(0, 0xFFFFFFFFull)); }
+    static constexpr result_type min() { return 0; }
+    static constexpr result_type max() { return 0xFFFFFFFFul; }
 };
 template<class T>
 class uniform_int_distribution
